@@ -197,6 +197,7 @@ pub fn run(args: &Args) {
     }
     // ---- C: (T,p) grid over the Gross-Sadowski collections
     npt_grid(&mut tr, args, &mut rng);
+    npt_mixtures(&mut tr, args, &mut rng);
     let n = tr.finish();
     println!("C03 trace: {} lines", n);
 }
@@ -208,6 +209,39 @@ impl Comp for ResidualModel {
     fn components_(&self) -> usize {
         use feos_core::Components;
         self.components()
+    }
+}
+
+/// Mixtures at (T, p) cells around their phase envelope: without a phase hint the returned root is the one of lower Gibbs energy (g = sum_i x_i ln phi_i),
+/// with a hint it lies on the requested branch. Not part of the success clause (which names the pure Gross-Sadowski records).
+fn npt_mixtures(tr: &mut Tr, args: &Args, rng: &mut Rng) {
+    use feos_core::parameter::IdentifierOption;
+    let systems: Vec<(Vec<&str>, Vec<f64>)> = vec![(vec!["propane", "butane"], vec![0.05, 0.95]), (vec!["propane", "butane"], vec![0.9, 0.1]), (vec!["methane", "decane"], vec![0.1, 0.9]),
+        (vec!["propane", "butane", "pentane"], vec![0.6, 0.3, 0.1]), (vec!["ethane", "hexane"], vec![0.5, 0.5])];
+    for (si, (names, x)) in systems.iter().enumerate() {
+        let Ok(par) = PcSaftParameters::from_json(names.clone(), ppath("pcsaft/gross2001.json"), None, IdentifierOption::Name) else { continue };
+        let eos = Arc::new(PcSaft::new(Arc::new(par)));
+        let moles = Moles::from_reduced(Array1::from_vec(x.clone()) * 1.3);
+        let Ok(cp) = State::critical_point(&eos, Some(&moles), None, SolverOptions::default()) else { continue };
+        let (tc, pc) = (cp.temperature, cp.pressure(CT));
+        let ncell = if args.thorough { 120 } else { 30 };
+        for _ in 0..ncell {
+            let tr_ = rng.range(0.55, 0.98);
+            let pr = rng.lrange(2e-3, 1.5);
+            let (t, p) = (tc * tr_, pc * pr);
+            let root = |init: DensityInitialization| -> Value {
+                match guarded(std::panic::AssertUnwindSafe(|| State::new_npt(&eos, t, p, &moles, init))) {
+                    Ok(Ok(s)) => json!({"ok": true, "rho": fs(s.density.to_reduced()), "p": fs(r0(s.pressure(CT))), "g": fs(r0(s.residual_molar_gibbs_energy())),
+                                       "dp_drho": fs(r0(s.dp_drho(CT)))}),
+                    Ok(Err(e)) => json!({"ok": false, "err": err_name(&e)}),
+                    Err(m) => json!({"ok": false, "err": format!("Panic:{}", m)}),
+                }
+            };
+            let rho0 = eos.max_density(Some(&moles)).unwrap() * rng.lrange(1e-4, 1.0);
+            tr.ev(json!({"ev":"Npt","file":format!("mixture:{}", names.join("+")),"index":si,"Tr":fs(tr_),"pr":fs(pr),"p_in":fs(p.to_reduced()),"success_clause":false,"x":fv(x.iter()),
+                "none":root(DensityInitialization::None),"vapor":root(DensityInitialization::Vapor),"liquid":root(DensityInitialization::Liquid),
+                "init":root(DensityInitialization::InitialDensity(rho0)),"rho0_rel":fs(rho0.to_reduced()/eos.max_density(Some(&moles)).unwrap().to_reduced())}));
+        }
     }
 }
 
